@@ -89,6 +89,53 @@ pub fn convert<'gc>(mc: &Mutation<'gc>, any: AnyGc<'gc>, conv: Conv) -> (AnyGc<'
     (out, err)
 }
 
+/// The weak pointer to a canonical strong pointer, in the representation it is to be stored in
+/// (C19): conversions applied on the weak side (`GcWeak::erase`, `as_ptr` / `from_ptr`,
+/// `from_ptr_with_kind`) or on the strong side before downgrading (`unsize!`, `as_thin`).
+pub fn convert_weak<'gc>(any: AnyGc<'gc>, conv: Conv) -> (AnyWeak<'gc>, Option<String>) {
+    use gc_arena::GcWeak;
+    let any = canon(any);
+    let addr = any.addr();
+    let (out, mut err): (AnyWeak<'gc>, Option<String>) = match (any, conv) {
+        (AnyGc::Node(g), Conv::Erase) => {
+            let w = Gc::downgrade(g);
+            let e = GcWeak::erase(w);
+            // SAFETY: the erased weak pointer came from a weak pointer to this very type
+            let back = unsafe { GcWeak::cast::<RefLock<NodeBody<'gc>>>(e) };
+            let bad = !GcWeak::ptr_eq(back, w) || !GcWeak::ptr_eq(e, Gc::downgrade(Gc::erase(g)));
+            (AnyWeak::NodeE(e), bad.then(|| "GcWeak::erase / cast: not ptr_eq to the original weak pointer".to_string()))
+        }
+        (AnyGc::Node(g), Conv::Unsize) => {
+            let d: Gc<'gc, dyn DynNode<'gc> + 'gc> = unsize!(g => dyn DynNode<'gc> + 'gc);
+            (AnyWeak::NodeD(Gc::downgrade(d)), None)
+        }
+        (AnyGc::Node(g), Conv::Raw) => {
+            let w = Gc::downgrade(g);
+            // SAFETY: the pointer comes from as_ptr of a weak pointer of the default kind
+            let back = unsafe { GcWeak::from_ptr(w.as_ptr()) };
+            (AnyWeak::Node(back), (!GcWeak::ptr_eq(back, w)).then(|| "GcWeak::as_ptr -> from_ptr: not ptr_eq".to_string()))
+        }
+        (AnyGc::Node(g), Conv::Kind) if node_tag_of(g.borrow().id) != 0 => {
+            let w = Gc::downgrade(g);
+            // SAFETY: nodes with such an id were allocated with this very kind (access::alloc)
+            let m: GcWeak<'gc, RefLock<NodeBody<'gc>>, KNodeM> = unsafe { GcWeak::from_ptr_with_kind(w.as_ptr()) };
+            (AnyWeak::NodeM(m), (m.as_ptr() != w.as_ptr()).then(|| "GcWeak::from_ptr_with_kind: address changed".to_string()))
+        }
+        (AnyGc::Field(g), Conv::Raw) => {
+            let w = Gc::downgrade(g);
+            let back = unsafe { GcWeak::from_ptr(w.as_ptr()) };
+            (AnyWeak::Field(back), (!GcWeak::ptr_eq(back, w)).then(|| "GcWeak::as_ptr -> from_ptr: not ptr_eq".to_string()))
+        }
+        (AnyGc::Slice(g), Conv::Thin) => (AnyWeak::ThinSlice(Gc::downgrade(Gc::as_thin(g))), None),
+        (AnyGc::Swh(g), Conv::Thin) => (AnyWeak::ThinSwh(Gc::downgrade(Gc::as_thin(g))), None),
+        (a, _) => (a.downgrade(), None),
+    };
+    if out.addr() != addr && err.is_none() {
+        err = Some(format!("{conv:?}: the converted weak pointer has a different address"));
+    }
+    (out, err)
+}
+
 pub fn kind_of(any: AnyGc<'_>) -> Kind {
     match canon(any) {
         AnyGc::Node(_) => Kind::Node,
